@@ -21,6 +21,7 @@ ENGINES = {
     "C12": ("eng_charset", "proof"),
     "C10": ("eng_front", "other"),
     "C11": ("eng_front", "proof"),
+    "C17": ("eng_examples", "other"),
     "C01": ("eng_core", "proof"),
     "C02": ("eng_core", "other"),
     "C03": ("eng_core", "proof"),
